@@ -12,6 +12,7 @@ CONSTANTS
   Inter = {TRUE, FALSE}
   Multis = {FALSE, TRUE}
   Muts = {0}
+  DefInts = {FALSE, TRUE}
   RouteIds = {1, 2, 3, 4, 5, 6, 7, 8}
   Reconfs = {0}
   Rounds = 1
